@@ -23,7 +23,7 @@ pub fn property(id: &str) -> Option<PropertyRun> {
     Some(match id {
         "C01" => PropertyRun {
             id: id.into(),
-            parts: vec![Box::new(Campaign(c01::C01)), Box::new(Campaign(c01::Equilibrium))],
+            parts: vec![Box::new(Campaign(c01::C01)), Box::new(Campaign(c01::Equilibrium)), Box::new(Campaign(c01::FrontEnd))],
             assumptions: vec!["reference semantics: floor division/modulo defined for positive divisors only (the behaviour tau_star.rs documents)".into(), "finite extents; only definite verdicts of the exact evaluator and of the reference semantics are compared".into()],
         },
         "C02" => PropertyRun {
@@ -81,6 +81,7 @@ pub fn property(id: &str) -> Option<PropertyRun> {
             parts: vec![
                 Box::new(Campaign(problems::C09 { known_shapes: false })),
                 Box::new(Campaign(problems::C09 { known_shapes: true })),
+                Box::new(Campaign(problems::Tptp4x)),
             ],
             assumptions: vec!["the checker's strict TFF reader and type checker are the oracle (acceptance cross-checked against tests/examples/tptp4X_linux)".into()],
         },
